@@ -282,6 +282,7 @@ func registerVerifrt(m map[string]modelFn) {
 		}
 		return nil
 	}
+	m["verifrt.Umask"] = func(fr *frame, a []Value) Value { return intC(0o022) }
 	m["verifrt.TempDir"] = func(fr *frame, a []Value) Value { return mkStr(fr.e.fs().tempDir()) }
 	m["verifrt.CrashPoint"] = func(fr *frame, a []Value) Value { fr.e.fs().armCrash(fr.e); return nil }
 	m["verifrt.AfterCrash"] = func(fr *frame, a []Value) Value { fr.e.afterCrash = a[0]; return nil }
